@@ -242,6 +242,9 @@ func build(t *TV) (reflect.Value, bool) {
 			} else {
 				ev = reflect.Zero(anyT)
 			}
+			if fmt.Sprint(f[1]) == "2" { // flag 2: an exported field whose static type is `any`, whatever it holds
+				ft = anyT
+			}
 			sf = append(sf, reflect.StructField{Name: f[0].(string), Type: ft})
 			vals = append(vals, ev)
 		}
